@@ -1,12 +1,12 @@
 PROP = dict(
-    id='C10', level='exploration',
-    pyvc=[],
+    id='C10', level='proof',
+    pyvc=['contracts.c10'],
     finite=[],
     bounded='bounded.c10',
     bounded_budget=dict(quick=45, thorough=420),
     assumptions=[],
     trusted_base=['z3 5.1 / cvc5 1.0.3', 'pyvc symbolic executor and its encoding of Python (DESIGN.md section 2.3)', 'CPython 3.12, PLY 3.11 (A-PLY)'],
-    manifest=dict(text='Bounded: all histories of <=4 attribute writes/reads/deletes/constructor keywords under independently chosen spellings on plain, identifying and referential attributes, with relate/unrelate, serialisation and where_eq observation; class-name spellings.',
+    manifest=dict(text='Proof: Class.__getattr__/__setattr__/__delattr__, MetaClass.attribute_type and MetaModel.find_metaclass are proved, for every declared attribute list, every spelling and every stored dictionary, to address the first declared spelling and to change exactly that one stored value; the read-after-write sentence is a lemma over these contracts. Bounded: all histories of <=4 attribute writes/reads/deletes/constructor keywords under independently chosen spellings on plain, identifying and referential attributes, with relate/unrelate, serialisation and where_eq observation; class-name spellings.',
                   note='CPython attribute lookup order (PY-6).',
-                  technique='bounded stand-in: run-time contracts on the real functions driven by exhaustive small-scope enumeration (labelled bounded, never counted as proved)'),
+                  technique='contract-based deductive verification (pyvc) + bounded stand-in: run-time contracts on the real functions driven by exhaustive small-scope enumeration (labelled bounded, never counted as proved)'),
 )
